@@ -201,7 +201,10 @@ fn gen_text(rng: &mut Rng, words: &[String], max_parts: usize) -> String {
             9 => s.push_str(rng.s(&["と", "っ", "です", "や", "の", "で"])),
             10 => s.push_str(rng.s(&["<br>", "<br><br>", "<BR><BR>", "<br><BR><br>", "<Br><Br>"])),
             11 => s.push_str(rng.s(&["・", "・・", "・・・", "・・・・"])),
-            12 => s.push_str(rng.s(&[",", "，", "、", "\\", "\\n", "\\server"])),
+            12 if rng.chance(1, 2) => s.push_str(rng.s(&[",", "，", "、", "\\", "\\n", "\\server"])),
+            // quotation marks and angle brackets that are NOT in the statement's bracket pairs: they neither open nor
+            // close anything and are no commas
+            12 => s.push_str(rng.s(&["\"", "\"", "'", "〝", "〟", "<", ">", "＜", "＞", "«", "»", "‹", "｢", "｣", "〈", "〉", "《", "》"])),
             13 | 14 if !words.is_empty() => s.push_str(rng.pick(words).as_str()),
             _ => s.push_str(crate::textgen::pick_char(rng)),
         }
